@@ -111,7 +111,7 @@ fn @name@() {
     # of apply_supras are explored on the VecDeque and merged. What is decided instead is the capture: the real matcher
     # binds exactly the boolean that the same modifier, used as a binary one, would need in order to reproduce the length
     # (the write-back of a *binary* length modifier is C05's set-length family).
-    len_shapes = [[(2, "overlong", False), (1, "long", True)], [(2, "long", False), (3, "overlong", True)]][seed % 2] if tier == "quick" else [(L, tag, iv) for L in (1, 2, 3) for tag in ("long", "overlong") for iv in (False, True)]
+    len_shapes = [(2, "overlong", False), (1, "long", True), (2, "long", False), (3, "overlong", True)] if tier == "quick" else [(L, tag, iv) for L in (1, 2, 3) for tag in ("long", "overlong") for iv in (False, True)]
     for (L, tag, iv) in len_shapes:
         nm = "c07_supra_alpha_capture_%s_%d%s" % (tag, L, "_inv" if iv else "")
         segs = ", ".join(["x"] + ["a"] * L + ["y"])
